@@ -28,9 +28,9 @@ RULE = ('one case = one content item tree (depth <= 3) of a value type drawn uni
         'admissible values (code values of <= 16, > 16 and URN form, given as CodedConcept or as pydicom Code with and without scheme version; ints and floats incl. extremes; dates / times with '
         'fractions and offsets; coordinate arrays of every graphic type at and around the required counts in every memory layout (C, Fortran, transposed / strided / reversed views, read-only, float32, int); frame / '
         'segment / channel lists incl. single values) or, in ~25 % of the cases, one forbidden feature (count off by '
-        'one, wrong dimension, open or non-coplanar polygon, unknown enumerated value, no time points, child without '
+        'one, wrong dimension, open (grossly, in one coordinate only, or by a float32-exact 2^-13..2^-15 gap at magnitude ~100) or non-coplanar polygon, unknown enumerated value, no time points, child without '
         'relationship type); each accepted tree is read back through its accessors, parsed from a plain in-memory '
-        'copy and from DICOM bytes (explicit and implicit VR), and parsed in damaged form (required attribute removed, '
+        'copy and from DICOM bytes (explicit and implicit VR), read a second time after the values it handed out were edited in place (built and parsed items, then written again), and parsed in damaged form (required attribute removed, '
         'value type swapped / unknown / missing, wrong class, child relationship removed).  Non-trivial = accepted '
         'tree parsed back with all values compared; distinct by (value type, graphic type, counts, option pattern, '
         'depth, children types)')
@@ -312,8 +312,11 @@ def gen_item(r, depth=0, vt=None, bad=None, need_rel=False):
             d['bad'] = 'enum'
         elif bad == 'dim':
             d['bad'] = 'dim'
-        if d['bad'] == 'open' and r.random() < 0.5:
-            # closed except for ONE coordinate of the last point (the plane contains that axis, so it stays coplanar)
+        if d['bad'] == 'open' and r.random() < 0.67:
+            # closed except for ONE coordinate of the last point (the plane contains that axis, so it stays coplanar);
+            # in half of these the gap is TINY: a float32-exact 2^-13 .. 2^-15 at a coordinate of magnitude 64 .. 200,
+            # far below any "close enough" tolerance (numpy allclose: 1e-8 + 1e-5 |x|) and still not equal
+            tiny = r.random() < 0.5
             k = r.randrange(3)
             while True:
                 u = [r.randint(-4, 4) / 2 for _ in range(3)]
@@ -321,6 +324,8 @@ def gen_item(r, depth=0, vt=None, bad=None, need_rel=False):
                 if any(u):
                     break
             o = [_dyadic(r, 8, 64) for _ in range(3)]
+            if tiny:
+                o[k] = r.choice([-1, 1]) * (64 + r.randint(0, 8 * 136) / 8)
             pts, seen = [], set()
             while len(pts) < n:
                 sa, sb = r.randint(-8, 8) / 2, r.randint(-8, 8) / 2
@@ -329,7 +334,8 @@ def gen_item(r, depth=0, vt=None, bad=None, need_rel=False):
                 seen.add((sa, sb))
                 pts.append([o[i] + sa * u[i] + (sb if i == k else 0.0) for i in range(3)])
             pts[-1] = list(pts[0])
-            pts[-1][k] += r.choice([0.5, -1.0, 2.0])
+            pts[-1][k] += r.choice([2.0 ** -13, -2.0 ** -14, 2.0 ** -15]) if tiny else r.choice([0.5, -1.0, 2.0])
+            assert pts[-1] != pts[0] and all(float(np.float32(x)) == x for x in pts[-1])
         elif gt in ('POLYGON', 'ELLIPSE') or r.random() < 0.5:
             pts = _plane_points(r, n, closed, coplanar)
         elif r.random() < 0.4:
@@ -849,6 +855,61 @@ def _parse_probe(reqs, pend, case, label, ds, how, cls_name, root, sr):
     pend.append(('parse', {'case': case, 'probe': label}, impl))
 
 
+def _edit_in_place(it):
+    """Read the list / array valued accessors of `it` (and of its descendants) and scribble over what they return.
+    Returns the number of values edited.  (TcoordContentItem.value is left alone: for several time points it IS the
+    data element's MultiValue.)"""
+    n = 0
+    vt = it.value_type.value
+    if vt in ('SCOORD', 'SCOORD3D'):
+        v = it.value
+        if isinstance(v, np.ndarray) and v.flags.writeable and v.size:
+            v *= 0.5
+            v += 100.0
+            n += 1
+    elif vt == 'IMAGE':
+        for v in (it.referenced_frame_numbers, it.referenced_segment_numbers):
+            if isinstance(v, list) and v:
+                v[0] += 1000
+                v.append(7)
+                n += 1
+    elif vt == 'WAVEFORM':
+        v = it.referenced_waveform_channels
+        if isinstance(v, list) and v:
+            v[0] = (99, 99)
+            n += 1
+    if 'ContentSequence' in it:
+        for c in it.ContentSequence:
+            n += _edit_in_place(c)
+    return n
+
+
+def _reread_after_edit(ctx, where, it, d, want, label):
+    """Two reads agree; after an in-place edit of the returned values the item still reports (and writes) `want`."""
+    try:
+        first, second = observe(it), observe(it)
+        x = _diff(first, second)
+        if x:
+            ctx.fail(where, {'what': f'two reads of the accessors of one {label} item differ', 'first difference': x},
+                     site='accessor-reread')
+            return
+        if not _edit_in_place(it):
+            return
+        x = _diff(observe(it), want)
+        if x:
+            ctx.fail(where, {'what': f'after the caller edited a returned value in place, the {label} item reports it '
+                                     'instead of its own value', 'first difference': x}, site='accessor-reread')
+            return
+        back = _parse(through_bytes(it, False), d['vt'], d['rel'], 'class')
+        x = _diff(observe(back), expected(d, True))
+        if x:
+            ctx.fail(where, {'what': f'after the caller edited a returned value in place, the {label} item is written '
+                                     'changed', 'first difference': x}, site='accessor-reread')
+    except Exception as e:  # noqa: BLE001
+        ctx.fail(where, f'reading the accessors of a {label} item repeatedly raised {type(e).__name__}: {e}'[:300],
+                 site='accessor-reread')
+
+
 def check_item(ctx, case, reqs=None, pend=None):
     d = case['item']
     bad = forbidden(d)
@@ -888,6 +949,9 @@ def check_item(ctx, case, reqs=None, pend=None):
                          site='accessor/' + vt)
         except Exception as e:  # noqa: BLE001
             ctx.fail(where, f'accessor raised {type(e).__name__}: {e}'[:300], site='accessor/' + vt)
+        # ---- oracle 2b: several calls on ONE object -- what a caller does to a value it was handed must not change
+        #      what the item reports next time, nor what is written
+        _reread_after_edit(ctx, where, it, d, want, 'built')
         # ---- oracle 3: parse back (in memory / through bytes) = same class, equal name, relationship, value, children
         for how, mk in (('memory/class', lambda: plain_copy(it)), ('memory/sequence', lambda: plain_copy(it)),
                         ('bytes-explicit/sequence', lambda: through_bytes(it, False)),
@@ -895,6 +959,8 @@ def check_item(ctx, case, reqs=None, pend=None):
             try:
                 back = _parse(mk(), vt, d['rel'], how.split('/')[1])
                 got = observe(back)
+                if how in ('memory/class', 'bytes-explicit/sequence'):
+                    _reread_after_edit(ctx, where, back, d, expected(d, True) if how.startswith('bytes') else want, 'parsed ' + how)
                 x = _diff(got, expected(d, True) if how.startswith('bytes') else want)
                 if x:
                     ctx.fail(where, {'what': f'parsed item ({how}) differs from the original', 'first difference': x},
